@@ -9,8 +9,9 @@ Property theorems only; helper lemmas and the specification vocabulary live in
   the edit does not filter blank lines.  This one hypothesis covers both cases of the text
   effect: auto-commit off (the texts are what the list operation left), and auto-commit on
   without `ignore_blank_lines` (`bootstrap` keeps the texts, `bootstrap_keeps_texts`).
-  With auto-commit on *and* `ignore_blank_lines` the texts after the step are the
-  blank-filtered ones of the same list (`C07`), which is not a C06 statement.
+  With auto-commit on *and* `ignore_blank_lines` the texts after the step are one bootstrap
+  of the auto-commit-off result — the same lines minus, possibly, blank ones
+  (`auto_commit_step_texts`).
 * `insertPos n k` / `popPos n k` — Python's index normalisation for `list.insert` / `list.pop`;
 * `expandLine after x a m` := `if m then (if after then [a, x] else [x, a]) else [a]`;
 * `matchCount n row` := number of `true` among the first `n` row entries;
